@@ -22,6 +22,9 @@ def fresh_copy(dst):
     os.makedirs(dst)
     r = sh("rsync -a --exclude target --exclude .git /repo/ %s/" % dst)
     assert r.returncode == 0, r.stdout
+    # cargo decides freshness by mtime: a file restored to its original content must not
+    # look older than the previous (patched) build, or the stale build would be reused
+    sh("find %s/src -type f -exec touch {} +" % dst)
 
 def run_check(prop, repo, tag, tier, extra=""):
     env = dict(os.environ, VERIF_REPO=repo, VERIF_TAG=tag)
